@@ -777,6 +777,84 @@ def suite_gen(which: set[str]):
                                                          else "inner-split" if rec["child"] else "inner-update")
                     cnt["insert:" + case_] = cnt.get("insert:" + case_, 0) + 1
                     compare("_BFNode_insert_bf_subcluster", args, (bool(ret), after[0], after[1], rec["log"]))
+            if "sklearn" in which:
+                # the scikit-learn wrapper on small real data: fit / partial_fit / fit_predict, one or two calls on one estimator,
+                # compute_labels on / off; base-class fit and get_assignments recorded in call order, their results as inputs
+                import bblean.sklearn as SKm
+                import bblean.bitbirch as BBm
+                from bblean.fingerprints import pack_fingerprints as _pk
+                base_fit = BBm.BitBirch.fit
+                base_ga = BBm.BitBirch.get_assignments
+                for _ in range(max(40, N // 3)):
+                    nf = rng.choice([16, 24])
+                    cl = rng.random() < 0.5
+                    est = SKm.BitBirch(threshold=rng.choice([0.3, 0.6]), branching_factor=rng.choice([3, 50]), compute_labels=cl)
+                    tok: dict = {}
+
+                    def token(r_):
+                        return tok.setdefault(bytes(np.asarray(r_, dtype=np.uint8).tobytes()), len(tok) + 1)
+
+                    def fields():
+                        lab = getattr(est, "labels_", None)
+                        cen = getattr(est, "subcluster_centers_", None)
+                        sl = getattr(est, "subcluster_labels_", None)
+                        return (None if lab is None else np.asarray(lab, dtype=np.uint64),
+                                None if cen is None else [token(r_) for r_ in cen],
+                                None if sl is None else [int(v_) for v_ in sl],
+                                getattr(est, "_n_features_out", None))
+                    for call_i in range(rng.choice([1, 2, 2])):
+                        meth = rng.choice(["fit", "partial_fit", "fit_predict", "fit_predict"])
+                        rows = np.asarray([[rng.random() < 0.5 for _b in range(nf)] for _r in range(rng.randint(1, 12))], dtype=np.uint8)
+                        X_ = _pk(rows)
+                        if meth == "partial_fit" and rng.random() < 0.25:
+                            X_ = None
+                        before = fields()
+                        log_: list = []
+                        gas: list = []
+
+                        def w_fit(self_, *a_, **k_):
+                            log_.append(10)
+                            return base_fit(self_, *a_, **k_)
+
+                        def w_ga(self_, *a_, **k_):
+                            log_.append(11)
+                            r_ = base_ga(self_, *a_, **k_)
+                            gas.append(np.asarray(r_, dtype=np.uint64).copy())
+                            return r_
+                        BBm.BitBirch.fit, BBm.BitBirch.get_assignments = w_fit, w_ga
+                        try:
+                            try:
+                                ret = getattr(est, meth)(X_)
+                            except ValueError:
+                                ret = "ERR:ValueError"
+                        finally:
+                            BBm.BitBirch.fit, BBm.BitBirch.get_assignments = base_fit, base_ga
+                        after = fields()
+                        ga_fit = gas[0] if cl and gas else None
+                        ga_own = (gas[-1] if (cl and len(gas) > 1) or (not cl and gas) else None)
+                        cen_in = after[1] if after[1] is not None else []
+                        common = [before[0], before[1], before[2], before[3], [], np.asarray([1], dtype=np.uint8) if X_ is not None else None, None, True, None, cen_in]
+                        if meth == "fit":
+                            args = common + [ga_fit, cl]
+                        else:
+                            args = common + [ga_fit, ga_own, cl]
+                        if isinstance(ret, str):
+                            rv = ("ERR",)
+                        elif meth == "fit_predict":
+                            rv = (np.asarray(ret, dtype=np.uint64),)
+                        else:
+                            rv = ("self",)
+                        real = rv + after + (log_,)
+                        m = d.cmd("GEN SkBitBirch_" + meth + " " + " ".join(pv(a_) for a_ in args))
+                        want = " ".join(("err:ValueError" if isinstance(v_, str) and v_ == "ERR" else pv(v_)) for v_ in real)
+                        res.evaluations += 1
+                        cnt["SkBitBirch_" + meth] = cnt.get("SkBitBirch_" + meth, 0) + 1
+                        if m != want and res.disagreement is None:
+                            res.disagreement = {"what": f"generated SkBitBirch_{meth} differs from the Python method", "compute_labels": cl,
+                                                "call": call_i, "model": m[:400], "impl": want[:400]}
+                        # the oracle of the property: what fit_predict returns labels the data fitted so far
+                        if meth == "fit_predict" and not isinstance(ret, str) and len(ret) != est.num_fitted_fps and res.disagreement is None:
+                            res.disagreement = {"what": "fit_predict returned a vector of another length than the fitted data", "model": str(est.num_fitted_fps), "impl": str(len(ret))}
             if "monitor" in which:
                 # the daemon's loop, run for real (real files) with a scripted process tree, clock and sleep; every iteration's
                 # file effects, recorded at the module's own `open` / `os` / `time` names, against the generated loop body
